@@ -332,6 +332,7 @@ def run(ctx: Ctx) -> None:
         ctx.obligation("correspondence:read_ready-lines", False, "correspondence", "model not built")
 
     serial_path_oracle(ctx, T, lines, 300 if thorough else 80)
+    live_protocol_oracle(ctx, lines, 200 if thorough else 60)
     asyncio.run(stream_oracle(ctx, lines, 30 if thorough else 10))
 
 
@@ -428,6 +429,85 @@ def serial_path_oracle(ctx: Ctx, T, lines: list[str], trials: int) -> None:
                           {**case, "error": repr(escaped)}, "history")
         elif proto.pkts != expect:
             ctx.violation("serial-frames-lost", "acceptable lines of a serial stream were not handed to the protocol", case, "history")
+
+
+def live_protocol_oracle(ctx: Ctx, lines: list[str], trials: int) -> None:
+    """The last stage of the live receive path: a real PortProtocol (device-id filter, foreign-gateway memo, QoS context) bound to a gateway
+    whose id is known, fed the packets of a history in which strangers' gateways talk -- over a process lifetime that crosses midnight.  Nothing
+    may escape pkt_received, and what reaches the msg handler is what a protocol that met each line on a fresh day hands over."""
+    import datetime as _dtm  # noqa: PLC0415
+
+    import ramses_tx.protocol as PR  # noqa: PLC0415
+    from ramses_tx.packet import Packet  # noqa: PLC0415
+
+    rng = ctx.rng
+    GW = "18:111111"
+    strangers = ["18:222222", "18:333333", "18:000730", "18:123456"]
+    good = [ln for ln in lines if ln and "\r" not in ln and "\n" not in ln][:300]
+    real_dt = PR.dt
+
+    class Clock(real_dt):
+        at = real_dt(2024, 1, 1, 23, 50)
+
+        @classmethod
+        def now(cls, tz=None):
+            return cls.at
+
+    class Tr:
+        def get_extra_info(self, k, d=None):
+            return {"active_gwy": GW, "is_evofw3": True}.get(k, d)
+
+        def is_closing(self):
+            return False
+
+    async def one(hist, steps):
+        got = []
+        Clock.at = real_dt(2024, 1, 1, 23, 50)
+        proto = PR.PortProtocol(lambda m: got.append(str(m._pkt)), disable_qos=True)
+        proto.connection_made(Tr(), ramses=True)
+        escaped = None
+        for ln, step in zip(hist, steps):
+            Clock.at = Clock.at + _dtm.timedelta(minutes=step)
+            try:
+                pkt = Packet.from_port(Clock.at, ln)
+            except Exception:  # noqa: BLE001
+                continue
+            try:
+                proto.pkt_received(pkt)
+            except Exception as err:  # noqa: BLE001
+                escaped = (ln, err)
+                break
+        return got, escaped
+
+    loop = asyncio.new_event_loop()
+    PR.dt = Clock
+    try:
+        for trial in range(trials):
+            hist = []
+            for _ in range(rng.randint(4, 12)):
+                r = rng.random()
+                if r < 0.5:
+                    a, b = rng.choice(strangers), rng.choice(["01:145038", "01:222222", "13:123456"])
+                    hist.append(rng.choice([f"045 RQ --- {a} {b} --:------ 30C9 001 00", f"045 RP --- {b} {a} --:------ 30C9 003 0007D0",
+                                            f"045  I --- {a} --:------ {a} 0008 002 00C8"]))
+                elif r < 0.7:
+                    hist.append(f"045 RP --- 01:145038 {GW} --:------ 30C9 003 0007D0")
+                else:
+                    hist.append(rng.choice(good))
+            steps = [rng.choice([0, 1, 5, 15, 700, 1500]) for _ in hist]          # minutes between lines: some histories cross one or two midnights
+            got, escaped = loop.run_until_complete(one(hist, steps))
+            ref, _ = loop.run_until_complete(one(hist, [0] * len(hist)))        # the same lines, all on the day the protocol was created
+            crossing = sum(steps) >= 10
+            ctx.case(("live-protocol", tuple(hist), tuple(steps)), bool(ref), "live-protocol:" + ("crosses-midnight" if crossing else "one-day"))
+            case = {"lines": hist, "minutes_between": steps, "delivered": got, "delivered_within_one_day": ref, "active_gateway": GW}
+            if escaped is not None:
+                ctx.violation(f"escape:{type(escaped[1]).__name__}@protocol.pkt_received", f"{type(escaped[1]).__name__} escapes the protocol's pkt_received",
+                              {**case, "line": escaped[0], "error": repr(escaped[1])}, "history")
+            elif [g[27:] for g in got] != [g[27:] for g in ref]:
+                ctx.violation("delivery-depends-on-the-date", "the frames a live protocol hands on depend on how long the process has been running", case, "history")
+    finally:
+        PR.dt = real_dt
+        loop.close()
 
 
 async def stream_oracle(ctx: Ctx, lines: list[str], trials: int) -> None:
